@@ -43,6 +43,7 @@ CONSTANTS Workers,            \* worker slots
           MaxGen,             \* generations per worker slot over the whole behaviour
           MaxWrites,          \* write calls over the whole behaviour (bounds the product of the channels' states)
           MaxCloses,          \* channels closed by running workers over the whole behaviour
+          MaxChanges,         \* `set NAME stdout_stream.* / stderr_stream.*` requests over the whole behaviour
           Atomic,             \* see Next
           Record,             \* keep the history variable (simulation, counterexample search); FALSE: exhaustive runs
           DumpAt,             \* history lengths at which MC wrappers dump the history (simulation)
@@ -61,11 +62,13 @@ VARIABLES pid,        \* [w]      pid of the generation in slot w, 0 = none
           loop,       \* [f]      handler table of the loop: [red, name, pid, live] or NoReg   (red's _active = entries with that red)
           fdOpen,     \* set of open read-end descriptors of the daemon
           eof,        \* [w][ch]  how often a handler saw EOF on the current file
-          budget,     \* [writes, closes] spent so far (bounds only)
+          budget,     \* [writes, closes, changes] spent so far (bounds only)
+          target,     \* [r][ch]  which stream object is configured for channel ch of watcher r (0 = the one it
+                      \*          started with; every `set ...stream...` installs a new one)
           delivered,  \* sequence of records handed to the stream callables
           hist        \* history of actions with the observable model state after each (hidden from the VIEW)
 
-vars == <<pid, gen, alive, wopen, rfd, phase, written, pipe, rstate, pipes, loop, fdOpen, eof, budget, delivered, hist>>
+vars == <<pid, gen, alive, wopen, rfd, phase, written, pipe, rstate, pipes, loop, fdOpen, eof, budget, target, delivered, hist>>
 
 Chans   == {"stdout", "stderr"}
 Fds     == 1..MaxFd
@@ -113,7 +116,8 @@ Init ==
   /\ loop = [f \in Fds |-> NoReg]
   /\ fdOpen = {}
   /\ eof = [w \in Workers |-> [ch \in Chans |-> 0]]
-  /\ budget = [writes |-> 0, closes |-> 0]
+  /\ budget = [writes |-> 0, closes |-> 0, changes |-> 0]
+  /\ target = [r \in Reds |-> [ch \in Chans |-> 0]]
   /\ delivered = <<>>
   /\ hist = <<>>
 
@@ -121,7 +125,7 @@ Init ==
 Start(r) ==
   /\ rstate[r] = "new"
   /\ rstate' = [rstate EXCEPT ![r] = "running"]
-  /\ UNCHANGED <<budget, pid, gen, alive, wopen, rfd, phase, written, pipe, pipes, loop, fdOpen, eof, delivered>>
+  /\ UNCHANGED <<budget, target, pid, gen, alive, wopen, rfd, phase, written, pipe, pipes, loop, fdOpen, eof, delivered>>
   /\ Log([a |-> "start", r |-> r])
 
 (* Redirector.stop(): every handler of this redirector leaves the loop (stale ones included); pipes stays *)
@@ -129,7 +133,7 @@ Stop(r) ==
   /\ rstate[r] = "running"
   /\ rstate' = [rstate EXCEPT ![r] = "stopped"]
   /\ loop' = [f \in Fds |-> IF loop[f].red = r THEN NoReg ELSE loop[f]]
-  /\ UNCHANGED <<budget, pid, gen, alive, wopen, rfd, phase, written, pipe, pipes, fdOpen, eof, delivered>>
+  /\ UNCHANGED <<budget, target, pid, gen, alive, wopen, rfd, phase, written, pipe, pipes, fdOpen, eof, delivered>>
   /\ Log([a |-> "stop", r |-> r])
 
 (* Process(...): Popen with stdout=PIPE, stderr=PIPE: two new descriptors, a new pid *)
@@ -144,7 +148,7 @@ Spawn(w) ==
        /\ rfd' = [rfd EXCEPT ![w] = [ch \in Chans |-> IF ch = "stdout" THEN fo ELSE fe]]
        /\ phase' = [phase EXCEPT ![w] = "spawned"]
        /\ fdOpen' = fdOpen \cup {fo, fe}
-       /\ UNCHANGED <<budget, written, pipe, rstate, pipes, loop, eof, delivered>>
+       /\ UNCHANGED <<budget, target, written, pipe, rstate, pipes, loop, eof, delivered>>
        /\ Log([a |-> "spawn", w |-> w, pid |-> PidOf(w, gen[w] + 1), fo |-> fo, fe |-> fe])
 
 (* Redirector.add_redirections(process): stdout then stderr;
@@ -166,7 +170,7 @@ AddRedirections(w) ==
   IN  /\ phase[w] = "spawned" /\ rstate[r] # "new"
       /\ loop' = s2.loop /\ pipes' = s2.pipes
       /\ phase' = [phase EXCEPT ![w] = IF s2.ok THEN "redirected" ELSE "orphan"]
-      /\ UNCHANGED <<budget, pid, gen, alive, wopen, rfd, written, pipe, rstate, fdOpen, eof, delivered>>
+      /\ UNCHANGED <<budget, target, pid, gen, alive, wopen, rfd, written, pipe, rstate, fdOpen, eof, delivered>>
       /\ Log([a |-> "add", w |-> w, ok |-> s2.ok])
 
 WorkerWrite(w, ch, n) ==
@@ -177,7 +181,7 @@ WorkerWrite(w, ch, n) ==
   /\ LET new == [i \in 1..n |-> Len(written[w][ch]) + i]
      IN  /\ written' = [written EXCEPT ![w][ch] = @ \o new]
          /\ pipe' = [pipe EXCEPT ![w][ch] = @ \o new]
-  /\ UNCHANGED <<pid, gen, alive, wopen, rfd, phase, rstate, pipes, loop, fdOpen, eof, delivered>>
+  /\ UNCHANGED <<target, pid, gen, alive, wopen, rfd, phase, rstate, pipes, loop, fdOpen, eof, delivered>>
   /\ Log([a |-> "write", w |-> w, ch |-> ch, n |-> n])
 
 (* the worker closes one of its output channels and keeps running *)
@@ -185,7 +189,7 @@ WorkerClose(w, ch) ==
   /\ pid[w] # 0 /\ alive[w] /\ wopen[w][ch]
   /\ wopen' = [wopen EXCEPT ![w][ch] = FALSE]
   /\ budget.closes < MaxCloses /\ budget' = [budget EXCEPT !.closes = @ + 1]
-  /\ UNCHANGED <<pid, gen, alive, rfd, phase, written, pipe, rstate, pipes, loop, fdOpen, eof, delivered>>
+  /\ UNCHANGED <<target, pid, gen, alive, rfd, phase, written, pipe, rstate, pipes, loop, fdOpen, eof, delivered>>
   /\ Log([a |-> "wclose", w |-> w, ch |-> ch])
 
 (* the worker exits or is killed: every write end goes *)
@@ -193,7 +197,7 @@ WorkerExit(w) ==
   /\ pid[w] # 0 /\ alive[w]
   /\ alive' = [alive EXCEPT ![w] = FALSE]
   /\ wopen' = [wopen EXCEPT ![w] = [ch \in Chans |-> FALSE]]
-  /\ UNCHANGED <<budget, pid, gen, rfd, phase, written, pipe, rstate, pipes, loop, fdOpen, eof, delivered>>
+  /\ UNCHANGED <<budget, target, pid, gen, rfd, phase, written, pipe, rstate, pipes, loop, fdOpen, eof, delivered>>
   /\ Log([a |-> "exit", w |-> w])
 
 (* the loop invokes the handler registered for f: os.read(fd, buffer); b"" -> remove_fd(fd) *)
@@ -204,17 +208,31 @@ DaemonRead(f) ==
        IF k > 0
        THEN /\ delivered' = Append(delivered, [pid |-> loop[f].pid, name |-> loop[f].name, red |-> loop[f].red,
                                                data |-> SubSeq(pipe[w][ch], 1, k),
-                                               opid |-> pid[w], och |-> ch, ored |-> RedOf[w]])
+                                               sid  |-> target[loop[f].red][loop[f].name],   \* redirect[name] is looked up per record
+                                               opid |-> pid[w], och |-> ch, ored |-> RedOf[w],
+                                               osid |-> target[RedOf[w]][ch]])
             /\ pipe' = [pipe EXCEPT ![w][ch] = SubSeq(@, k + 1, Len(@))]
-            /\ UNCHANGED <<budget, pid, gen, alive, wopen, rfd, phase, written, rstate, pipes, loop, fdOpen, eof>>
+            /\ UNCHANGED <<budget, target, pid, gen, alive, wopen, rfd, phase, written, rstate, pipes, loop, fdOpen, eof>>
             /\ Log([a |-> "read", f |-> f, k |-> k, pid |-> loop[f].pid, name |-> loop[f].name, red |-> loop[f].red,
-                    data |-> SubSeq(pipe[w][ch], 1, k)])
+                    sid |-> target[loop[f].red][loop[f].name], data |-> SubSeq(pipe[w][ch], 1, k)])
        ELSE /\ loop' = [loop EXCEPT ![f] = NoReg]
             /\ pipes' = [pipes EXCEPT ![loop[f].red][f] = NoPipe]
             /\ eof' = [eof EXCEPT ![w][ch] = @ + 1]
-            /\ UNCHANGED <<budget, pid, gen, alive, wopen, rfd, phase, written, pipe, rstate, fdOpen, delivered>>
+            /\ UNCHANGED <<budget, target, pid, gen, alive, wopen, rfd, phase, written, pipe, rstate, fdOpen, delivered>>
             /\ Log([a |-> "read", f |-> f, k |-> 0, pid |-> loop[f].pid, name |-> loop[f].name, red |-> loop[f].red,
-                    data |-> <<>>])
+                    sid |-> target[loop[f].red][loop[f].name], data |-> <<>>])
+
+(* `set NAME stdout_stream.KEY VALUE` (watcher.set_opt -> _reload_stream): a new stream object is built from    *)
+(* the changed configuration, Redirector.change_stream(ch, new) swaps redirect[ch], the old stream is closed.   *)
+(* The redirector, its pipes and its handlers stay as they are: the workers keep running (action 0, no restart) *)
+(* and what they write from now on belongs to the new stream.  (A watcher that is stopped has no redirector:     *)
+(* _stop sets it to None; that branch builds a fresh one and is outside this model.)                           *)
+ChangeStream(r, ch) ==
+  /\ rstate[r] # "stopped"
+  /\ budget.changes < MaxChanges /\ budget' = [budget EXCEPT !.changes = @ + 1]
+  /\ target' = [target EXCEPT ![r][ch] = @ + 1]
+  /\ UNCHANGED <<pid, gen, alive, wopen, rfd, phase, written, pipe, rstate, pipes, loop, fdOpen, eof, delivered>>
+  /\ Log([a |-> "chstream", r |-> r, ch |-> ch, sid |-> target[r][ch] + 1])
 
 (* watcher.kill_process, after the worker is gone: Redirector.remove_redirections(process) *)
 RemoveRedirections(w) ==
@@ -223,7 +241,7 @@ RemoveRedirections(w) ==
   /\ loop' = [f \in Fds |-> IF f \in MyFds(w) /\ loop[f].red = r THEN NoReg ELSE loop[f]]
   /\ pipes' = [pipes EXCEPT ![r] = [f \in Fds |-> IF f \in MyFds(w) THEN NoPipe ELSE @[f]]]
   /\ phase' = [phase EXCEPT ![w] = "removed"]
-  /\ UNCHANGED <<budget, pid, gen, alive, wopen, rfd, written, pipe, rstate, fdOpen, eof, delivered>>
+  /\ UNCHANGED <<budget, target, pid, gen, alive, wopen, rfd, written, pipe, rstate, fdOpen, eof, delivered>>
   /\ Log([a |-> "remove", w |-> w])
 
 (* Process.stop() -> close_output_channels(): both read ends are closed; whatever was unread is gone.
@@ -244,7 +262,7 @@ CloseOutputs(w) ==
   /\ written' = [written EXCEPT ![w] = [ch \in Chans |-> <<>>]]
   /\ pipe' = [pipe EXCEPT ![w] = [ch \in Chans |-> <<>>]]
   /\ eof' = [eof EXCEPT ![w] = [ch \in Chans |-> 0]]
-  /\ UNCHANGED <<budget, gen, alive, rstate, delivered>>
+  /\ UNCHANGED <<budget, target, gen, alive, rstate, delivered>>
   /\ Log([a |-> "pstop", w |-> w])
 
 (* watcher.spawn_process runs Process(...) and add_redirections in one callback, watcher.kill_process runs  *)
@@ -255,7 +273,7 @@ Pending == {w \in Workers : phase[w] \in {"spawned", "removed"}}
 Next ==
   \/ \E w \in Workers : AddRedirections(w) \/ (phase[w] = "removed" /\ CloseOutputs(w))
   \/ /\ Atomic => Pending = {}
-     /\ \/ \E r \in Reds : Start(r) \/ Stop(r)
+     /\ \/ \E r \in Reds : Start(r) \/ Stop(r) \/ \E ch \in Chans : ChangeStream(r, ch)
         \/ \E w \in Workers : \/ Spawn(w) \/ WorkerExit(w)
                               \/ RemoveRedirections(w) \/ (phase[w] # "removed" /\ CloseOutputs(w))
                               \/ \E ch \in Chans : \/ WorkerClose(w, ch)
@@ -274,7 +292,7 @@ C17_Prefix == \A w \in Workers, ch \in Chans : pid[w] # 0 => IsPrefix(DataOf(pid
 C17_Done   == \A w \in Workers, ch \in Chans :
                  pid[w] # 0 /\ alive[w] /\ pipe[w][ch] = <<>> => DataOf(pid[w], ch) = written[w][ch]
 
-LabelOK(r) == r.pid = r.opid /\ r.name = r.och /\ r.red = r.ored /\ r.data # <<>> /\ Len(r.data) <= Buffer
+LabelOK(r) == r.pid = r.opid /\ r.name = r.och /\ r.red = r.ored /\ r.sid = r.osid /\ r.data # <<>> /\ Len(r.data) <= Buffer
 C17_Label  == \A i \in DOMAIN delivered : LabelOK(delivered[i])
 
 C17_EOF    == \A w \in Workers, ch \in Chans :
